@@ -382,6 +382,9 @@ func (w *World) verifyFunc(u *Unit, name string) (ex *Exec, err error) {
 		for _, c := range fs.Requires {
 			g := ex.evalSpecBool(st, c.Expr, u, fmt.Sprintf("%s:%d requires %s", c.File, c.Line, c.Label))
 			st.assume(g)
+			if c.Kind == "assumes" {
+				w.Trusted[fmt.Sprintf("environment assumption at entry of %s (%s): %s", ex.FName, c.Label, c.Expr)] = true
+			}
 		}
 	}
 	st.old = st.clone()
@@ -418,6 +421,9 @@ func (w *World) verifyFunc(u *Unit, name string) (ex *Exec, err error) {
 	if fs != nil {
 		for pname, callees := range fs.Flows {
 			ex.checkFlows(body, pname, callees, pos)
+		}
+		if fs.AssignsNone {
+			ex.checkAssignsNone(body, pos)
 		}
 	}
 	// vacuity: unmatched anchors / loops in the contract
@@ -796,6 +802,19 @@ func (ex *Exec) checkFlows(body *ast.BlockStmt, pname string, callees []string, 
 		}
 		return true
 	})
+	// ".Field" entries allow reading that field of the parameter
+	ast.Inspect(body, func(x ast.Node) bool {
+		if sel, ok := x.(*ast.SelectorExpr); ok {
+			if id, ok := ast.Unparen(sel.X).(*ast.Ident); ok && ex.Info.ObjectOf(id) == obj {
+				for _, c := range callees {
+					if c == "."+sel.Sel.Name {
+						allowed[id.Pos()] = true
+					}
+				}
+			}
+		}
+		return true
+	})
 	uses, bad := 0, 0
 	var where []string
 	ast.Inspect(body, func(x ast.Node) bool {
@@ -809,4 +828,32 @@ func (ex *Exec) checkFlows(body *ast.BlockStmt, pname string, callees []string, 
 		return true
 	})
 	ex.obligeAST("flows", pname, pos, bad == 0 && uses >= 1, fmt.Sprintf("%s is used %d time(s); uses other than as argument of %v at %v", pname, uses, callees, where), nil)
+}
+
+// checkAssignsNone: the body writes no field, package variable, element or
+// pointee (locals only) - so nothing can be cached across calls.
+func (ex *Exec) checkAssignsNone(body *ast.BlockStmt, pos token.Pos) {
+	var bad []string
+	visit := func(l ast.Expr) {
+		switch t := ast.Unparen(l).(type) {
+		case *ast.Ident:
+			if o, ok := ex.Info.ObjectOf(t).(*types.Var); ok && o.Pkg() != nil && o.Parent() == o.Pkg().Scope() {
+				bad = append(bad, ex.posStr(t.Pos())+": package variable "+t.Name)
+			}
+		case *ast.SelectorExpr, *ast.IndexExpr, *ast.StarExpr:
+			bad = append(bad, ex.posStr(l.Pos())+": "+exprText(l))
+		}
+	}
+	ast.Inspect(body, func(x ast.Node) bool {
+		switch a := x.(type) {
+		case *ast.AssignStmt:
+			for _, l := range a.Lhs {
+				visit(l)
+			}
+		case *ast.IncDecStmt:
+			visit(a.X)
+		}
+		return true
+	})
+	ex.obligeAST("assigns-none", "", pos, len(bad) == 0, "writes to non-local state: "+strings.Join(bad, ", "), nil)
 }
